@@ -5,9 +5,10 @@
    V-chains (one of them inverted) on their exact qubit lists are C05's theorems for every size, and the 2x2 premise
    (A^dagger X A X)^2 = U is C04_gate_a_fourth_root (checked numerically per run).  The recursion step of Qdmcu (Barenco 7.5) is
    a theorem; the Ldmcu ladder, the eigenbasis branch, LdMcSpecialUnitary, MCU and the multi-target variant are evaluated. *)
-From Coq Require Import Reals Lra List Bool Arith.
+From Coq Require Import Reals Lra List Bool Arith ZArith.
 From Coquelicot Require Import Complex.
 From QV Require Import Sem Mat2 Toff2 Chain Barenco GateA McxModel LinearMcx LdmcsuModel QdmcuModel.
+From QV Require LdmcuCore LdmcuModel LdmcuInst.
 Open Scope R_scope.
 
 (* CV(c->t) ; MCX(rest->c) ; CV^dagger(c->t) ; MCX(rest->c) ; C^{rest}V(t)  =  U on t controlled on rest /\ c,
@@ -70,3 +71,23 @@ Theorem C04_linear_mcx_exact : forall (k : nat) (pat : list bool), 1 <= k -> for
   srun (linear_mcx k pat false) psi b = psi (if pmatch pat k b then flipq k b else b).
 Proof. exact lm_exact. Qed.
 Print Assumptions C04_linear_mcx_exact.
+
+(* Ldmcu (linear depth, da Silva & Park): T >= 1 controls 0..T-1 with pattern pat, target T.  The gate list is the one the code
+   emits: X on the 0-controls, four sweeps of controlled gates over the pairs (control, target) sorted stably by control + target
+   (descending, ascending, descending, ascending), X again.  A controlled gate on a control qubit t is RX(z pi / 2^(t-1)), on the
+   target it is W^z, W the deepest root U^(1/2^(T-1)) and Wi its inverse.  The circuit applies W^(2^(T-1)) = U to the target
+   exactly on the basis states matching the pattern, and restores every control, phase included. *)
+Theorem C04_ldmcu : forall (T : nat) (W Wi : mat2) (pat : list bool) (psi : state),
+  1 <= T -> mmul W Wi = I2 -> mmul Wi W = I2 ->
+  LdmcuInst.frun (LdmcuInst.ELd T W Wi) (LdmcuInst.ldmcu T pat) psi
+  = appf (fun b => if pmatch pat T b then LdmcuInst.npow W (2 ^ (T - 1)) else I2) T psi.
+Proof. exact LdmcuInst.ldmcu_sem. Qed.
+Print Assumptions C04_ldmcu.
+
+(* the arithmetic at the heart of it: with y_c = x_c xor [x_0 .. x_(c-1) all 1],
+   x_0 + sum_(c=1..m) (x_c - y_c) 2^(c-1) = 2^m [x_0 .. x_m all 1] *)
+Theorem C04_ldmcu_weights : forall m b,
+  (LdmcuCore.wsum LdmcuCore.wt (seq 0 (S m)) b + LdmcuCore.wsum (fun c => (- LdmcuCore.wt c)%Z) (seq 1 m) (LdmcuCore.tau m b)
+   = LdmcuCore.bz (LdmcuCore.ones (S m) b) * 2 ^ Z.of_nat m)%Z.
+Proof. exact LdmcuCore.weight_identity. Qed.
+Print Assumptions C04_ldmcu_weights.
